@@ -4,6 +4,7 @@ import (
 	"encoding/json"
 	"fmt"
 	"strings"
+	"time"
 
 	log "github.com/go-spring/log"
 	"github.com/go-spring/log/verifsim"
@@ -47,6 +48,10 @@ func (c05) Gen(rt *rapid.T, thorough bool) any {
 			s.Via = "refresh"
 		}
 		if s.Kind == "RollingFile" {
+			s.RotMs = rapid.SampledFrom([]int{3600000, 2000, 2000}).Draw(rt, "rot_ms")
+			for i, n := 0, rapid.IntRange(0, 3).Draw(rt, "nclock5"); i < n; i++ {
+				s.Clock = append(s.Clock, rapid.SampledFrom([]int{700, 2100, 4500}).Draw(rt, "clock5"))
+			}
 			s.Separate = rapid.Bool().Draw(rt, "separate5")
 			s.RAsync = rapid.Bool().Draw(rt, "rasync")
 			if !rapid.Bool().Draw(rt, "rlayout") {
@@ -128,7 +133,7 @@ func (c c05) Run(x *Exec, scn any) {
 		case "RollingFile":
 			base.Layout = layout
 			l := &log.RollingFileLogger{LoggerBase: base, FileDir: "/logs", FileName: "app.log", Separate: s.Separate,
-				Rotation: log.TimeRotation{Interval: intervals["h"]}, MaxAge: 168,
+				Rotation: log.TimeRotation{Interval: time.Duration(s.RotMs) * time.Millisecond}, MaxAge: 168,
 				AsyncWrite: s.RAsync, BufferSize: s.BufferSize, BufferFullPolicy: policyOf(s.Policy)}
 			var pv any
 			var st string
@@ -154,7 +159,7 @@ func (c c05) Run(x *Exec, scn any) {
 			spec.Apps = []AppSpec{{Name: "unused", Type: "Discard"}}
 		case "RollingFile":
 			spec.Apps = []AppSpec{{Name: "unused", Type: "Discard"}}
-			lg.FileDir, lg.FileName, lg.Rotation, lg.MaxAge = "/logs", "app.log", "h", 168
+			lg.FileDir, lg.FileName, lg.Rotation, lg.MaxAge = "/logs", "app.log", map[int]string{3600000: "h", 2000: "2s"}[s.RotMs], 168
 			lg.Separate, lg.Async = s.Separate, s.RAsync
 			if s.RAsync {
 				lg.BufferSize, lg.Policy = s.BufferSize, s.Policy
@@ -197,7 +202,21 @@ func (c c05) Run(x *Exec, scn any) {
 			}
 		})
 	}
+	clockEnvMs(x, s.Clock)
 	res := x.Sim.Run(nil)
+	if s.Kind == "RollingFile" && s.RotMs == 2000 {
+		// at least two more rotations of every file appender before Stop: a descriptor that is
+		// only released "one rotation later" must really be released then
+		for round := 0; round < 3; round++ {
+			x.Sim.Advance(2100 * time.Millisecond)
+			x.Sim.Spawn(fmt.Sprintf("producer-late%d", round), func() {
+				subs[0] = append(subs[0], submit(0, 1000+2*round, AOp{Lvl: "INFO", Size: 3}))
+				subs[0] = append(subs[0], submit(0, 1001+2*round, AOp{Lvl: "ERROR", Size: 3}))
+			})
+			res = x.Sim.Run(nil)
+			x.Sim.Probe("rotation_before_stop")
+		}
+	}
 	stuckProducers := false
 	for _, t := range x.Sim.Tasks() {
 		if strings.HasPrefix(t.Name, "producer") && t.State != 5 {
@@ -324,7 +343,7 @@ func (c05) runAsync(x *Exec, s *AsyncScn) {
 	sys.spawnProducers(x, subs)
 	// Block producers may legitimately wait for space: let the worker through while producers run
 	sys.gateEnvs(x, true)
-	res := x.Sim.Run(nil)
+	res := x.Sim.Run(x.harnessTasksDone)
 	if res.StepCap {
 		o.violate("log-call-livelock", "C05/log-call-livelock/AsyncLogger", "producers spin (step cap)")
 		return
